@@ -184,3 +184,33 @@ def input_payload_contract(chk, prefix="C18"):
             chk.prove(f"{prefix}.exec.input_payload", s.pc, goal,
                       desc="get_input_payload(): no operations => None; first operation is the EXECUTION record => its input payload (None without details); first operation of another type => DurableExecutionsError (malformed invocation payload, raised before any thread starts)")
     return eng
+
+
+def error_from_exception_contract(chk, prefix="C18"):
+    """ErrorObject.from_exception(e): message = str(e) (a str, whatever the exception was constructed with), type = the class name, no data, no stack
+    trace.  The exception's argument tuple is arbitrary here: one argument of ANY type, none, or several."""
+    from pyvc.engine import Engine as _E
+    for shape in ("one_arbitrary_argument", "no_argument", "two_arguments"):
+        eng = _E(hooks=ExecHooks())
+        P = eng.program
+        st = St()
+        cls = P.cls("lambda_service.ErrorObject")
+        chk.function("lambda_service.ErrorObject.from_exception")
+        exc = eng.new_symexc(st, "raised")
+        stor = dict(st.get(exc))
+        stor["args"] = {"one_arbitrary_argument": (fresh("any", "exception_argument"),), "no_argument": (), "two_arguments": (fresh("any", "a0"), fresh("any", "a1"))}[shape]
+        st.put(exc, stor)
+        msg = eng.exc_message(exc, st)
+        for k, v, s in eng.run(cls.find_method("from_exception"), [ClassRef(cls), exc], st=st):
+            chk.paths += 1
+            ok = k == "val" and isinstance(v, Ref)
+            goal = z3.BoolVal(ok)
+            if ok:
+                e = s.get(v)
+                m = e["message"]
+                goal = z3.And(goal, z3.BoolVal(isinstance(m, str) or is_sym(m, "str")), ops.values_equal(s, m, msg) if (isinstance(m, str) or is_sym(m, "str")) else F,
+                              ops.values_equal(s, e["type"], s.get(exc)["__typename__"]), is_none(e["data"]), is_none(e["stack_trace"]))
+            chk.prove(f"{prefix}.error.from_exception", s.pc, goal,
+                      desc="ErrorObject.from_exception(e) is (message = str(e), type = type(e).__name__, no data, no stack trace): the message is a string for every exception, also one constructed with a non-string argument (a FAILED outcome must be JSON-serializable)",
+                      sample=f"from_exception of an exception with {shape.replace('_', ' ')}")
+    return None
